@@ -291,6 +291,38 @@ def check_reimport(ctx, mf, info, mode):
             return
         if mode != 2 and any(len(v) > 1 for v in by_pv.values()):
             ctx.violation(f"import-fuses-track-channels-mode-{mode}", "notes of different (track, channel) ended up in one (part, voice)", w)
+            return
+        # time signatures of an imported part = those written in the track its notes came from (a track without any keeps
+        # the documented pooling of the other tracks' signatures)
+        tracks_of_part = collections.defaultdict(set)
+        for (pi, _v), tcs in by_pv.items():
+            tracks_of_part[pi].update(ti for ti, _ch in tcs)
+        for pi, part in enumerate(sc.parts):
+            tis = tracks_of_part.get(pi, set())
+            if len(tis) != 1:
+                continue
+            ti = next(iter(tis))
+            written, tick = [], 0
+            for msg in mf.tracks[ti]:
+                tick += msg.time
+                if msg.type == "time_signature":
+                    row = (Fraction(tick, ppq), msg.numerator, msg.denominator)
+                    if not written or written[-1][1:] != row[1:]:
+                        written.append(row)
+            if not written:
+                continue
+            q = int(part.quarter_durations()[0][1])
+            got_ts = []
+            for o in sorted(timemaps.objects_of(part, S.TimeSignature), key=lambda o: o.start.t):
+                row = (Fraction(int(o.start.t), q), int(o.beats), int(o.beat_type))
+                if not got_ts or got_ts[-1][1:] != row[1:]:
+                    got_ts.append(row)
+            ctx.check()
+            if got_ts != written:
+                ctx.violation("import-time-signatures-differ-from-the-parts-track",
+                              f"imported part {pi} (from track {ti}) has time signatures {[(str(a), b, c) for a, b, c in got_ts][:6]}, "
+                              f"the track holds {[(str(a), b, c) for a, b, c in written][:6]}", w)
+                return
     finally:
         os.unlink(path)
 
@@ -363,6 +395,13 @@ def run_item(ctx, item):
             starts = sorted({int(n.start.t) for n in p.notes})
             for _ in range(rng.randint(1, 2)):
                 p.add(S.Tempo(rng.choice([60, 72, 96, 120, 144]), "q"), rng.choice(starts) if starts else 0)
+    # parts that do not share their meter changes (one part changes the time signature, another keeps the first one)
+    if len(parts) >= 2 and rng.random() < 0.25:
+        tss = sorted(timemaps.objects_of(parts[1], S.TimeSignature), key=lambda o: o.start.t)
+        if len(tss) >= 2:
+            for o in tss[1:]:
+                parts[1].remove(o)
+            ctx.extra["scores_whose_parts_do_not_share_their_meter_changes"] += 1
     # a tacet / conductor part: rests and tempo marks only, in divisions that do not divide those of the sounding parts
     if len(meta0["divs"]) == 1 and rng.random() < 0.3:
         q1 = meta0["divs"][0][1]
